@@ -338,13 +338,15 @@ def WireKind (tn : String) (i : Nat) : FK → Bool
   | .uint max => decide (max < 256 ^ widthOf max)
   | .cstr _ mb _ => isRestField tn i || (match mb with | some m => decide (m ≤ 255) | none => false)
   | .hexOne => false
-  | .b64One | .nameRaw | .rcode => tn == "TSIG"      -- TSIG lays these out in schema order; HIP and TKEY do not
+  | .b64One | .nameRaw => tn == "TSIG" || tn == "TKEY"   -- in schema order there (HIP: `encHip`)
+  | .rcode => tn == "TSIG"
   | _ => true
 
 /-- the encoding of the field at index `i` (as in `encFields`) -/
 def encOne (tn : String) (origin : Option Name) (i : Nat) (k : FK) (v : FV) : Option Bytes :=
   match k, v with
   | .cstr _ _ _, .b s => if isRestField tn i then some s else encField origin k v
+  | .b64One, .b s => if tn == "TKEY" then packGuard (decide (s.length < 65536)) (beBytes 2 s.length ++ s) else encField origin k v
   | _, _ => encField origin k v
 
 theorem encFields_cons (tn : String) (o : Option Name) (i : Nat) (k : FK) (ks : List FK) (v : FV) (vs : List FV) :
@@ -402,6 +404,16 @@ theorem bytesMax_le (m : Nat) (v b : Bytes) (h : bytesMax (some m) v = some b) :
   split at h
   · cases h
   · injection h with h; subst h; omega
+
+theorem b64One_len (t : Tok) (v : FV) (h : parseFieldExtra .b64One t = some v) : ∃ b, v = .b b ∧ b.length ≤ 65535 := by
+  simp only [parseFieldExtra] at h
+  split at h
+  · split at h
+    · split at h
+      · cases h
+      · injection h with h; exact ⟨_, h.symm, by omega⟩
+    · cases h
+  · cases h
 
 theorem rcodeFit : ∀ p ∈ ConstsC05.rcodeNames, p.2 ≤ 4095 := by decide +kernel
 
@@ -539,10 +551,8 @@ theorem field_encodable_extra (tn : String) (O : Name) (i : Nat) (k : FK) (t : T
     · cases h
   | hexOne => cases hk
   | b64One =>
-    simp only [parseFieldExtra] at h
-    split at h
-    · obtain ⟨b, _, rfl⟩ := map_b_some h; rfl
-    · cases h
+    obtain ⟨b, rfl, _⟩ := b64One_len t v h
+    rfl
   | rcode =>
     simp only [parseFieldExtra] at h
     split at h
@@ -553,11 +563,12 @@ theorem field_encodable_extra (tn : String) (O : Name) (i : Nat) (k : FK) (t : T
   | _ => simp [parseFieldExtra] at h
 
 theorem encOne_noncstr (tn : String) (o : Option Name) (i : Nat) (k : FK) (v : FV)
-    (hk : ∀ a b c, k ≠ .cstr a b c) : encOne tn o i k v = encField o k v := by
+    (hk : ∀ a b c, k ≠ .cstr a b c) (hb : k ≠ .b64One) : encOne tn o i k v = encField o k v := by
   unfold encOne
   split
   · rename_i a b c s
     exact absurd rfl (hk a b c)
+  · exact absurd rfl hb
   · rfl
 
 theorem field_encodable (tn : String) (env : PEnv) (O : Name) (hO : isAbs O = true) (i : Nat) (k : FK) (t : Tok) (v : FV)
@@ -565,27 +576,27 @@ theorem field_encodable (tn : String) (env : PEnv) (O : Name) (hO : isAbs O = tr
     (encOne tn (some O) i k v).isSome = true := by
   cases k with
   | uint max =>
-    rw [encOne_noncstr _ _ _ _ _ (by intro a b c e; cases e)]
+    rw [encOne_noncstr _ _ _ _ _ (by intro a b c e; cases e) (by intro e; cases e)]
     simp only [parseField] at h
     obtain ⟨n, hn, rfl⟩ := map_n_some h
     have := asUint_le _ _ _ _ hn
     simp only [WireKind, decide_eq_true_eq] at hk
     exact packGuard_isSome _ _ (by simp; omega)
   | oct16 =>
-    rw [encOne_noncstr _ _ _ _ _ (by intro a b c e; cases e)]
+    rw [encOne_noncstr _ _ _ _ _ (by intro a b c e; cases e) (by intro e; cases e)]
     simp only [parseField] at h
     obtain ⟨n, hn, rfl⟩ := map_n_some h
     have := asUint_le _ _ _ _ hn
     exact packGuard_isSome _ _ (by simp; omega)
   | ttl =>
-    rw [encOne_noncstr _ _ _ _ _ (by intro a b c e; cases e)]
+    rw [encOne_noncstr _ _ _ _ _ (by intro a b c e; cases e) (by intro e; cases e)]
     simp only [parseField] at h
     obtain ⟨n, hn, rfl⟩ := map_n_some h
     have := asTtl_le _ _ hn
     have := tablesFit.2.2.2.2.2.2
     exact packGuard_isSome _ _ (by simp; omega)
   | name =>
-    rw [encOne_noncstr _ _ _ _ _ (by intro a b c e; cases e)]
+    rw [encOne_noncstr _ _ _ _ _ (by intro a b c e; cases e) (by intro e; cases e)]
     simp only [parseField] at h
     cases hn : asName t env.origin env.relativize env.relTo with
     | none => simp [hn] at h
@@ -595,7 +606,7 @@ theorem field_encodable (tn : String) (env : PEnv) (O : Name) (hO : isAbs O = tr
       simp only [encField, encName, hO, if_true]
       split <;> rfl
   | nameRaw =>
-    rw [encOne_noncstr _ _ _ _ _ (by intro a b c e; cases e)]
+    rw [encOne_noncstr _ _ _ _ _ (by intro a b c e; cases e) (by intro e; cases e)]
     simp only [parseField] at h
     cases hn : asName t none false none with
     | none => simp [hn] at h
@@ -623,7 +634,7 @@ theorem field_encodable (tn : String) (env : PEnv) (O : Name) (hO : isAbs O = tr
           exact packGuard_isSome _ _ (by simp; omega)
     · cases h
   | ip4 =>
-    rw [encOne_noncstr _ _ _ _ _ (by intro a b c e; cases e)]
+    rw [encOne_noncstr _ _ _ _ _ (by intro a b c e; cases e) (by intro e; cases e)]
     simp only [parseField] at h
     split at h
     · cases h
@@ -633,7 +644,7 @@ theorem field_encodable (tn : String) (env : PEnv) (O : Name) (hO : isAbs O = tr
         exact packGuard_isSome _ _ (by simp [this])
       · cases h
   | ip6 =>
-    rw [encOne_noncstr _ _ _ _ _ (by intro a b c e; cases e)]
+    rw [encOne_noncstr _ _ _ _ _ (by intro a b c e; cases e) (by intro e; cases e)]
     simp only [parseField] at h
     split at h
     · cases h
@@ -643,7 +654,7 @@ theorem field_encodable (tn : String) (env : PEnv) (O : Name) (hO : isAbs O = tr
         exact packGuard_isSome _ _ (by simp [this])
       · cases h
   | algo =>
-    rw [encOne_noncstr _ _ _ _ _ (by intro a b c e; cases e)]
+    rw [encOne_noncstr _ _ _ _ _ (by intro a b c e; cases e) (by intro e; cases e)]
     simp only [parseField] at h
     split at h
     · obtain ⟨n, hn, rfl⟩ := map_n_some h
@@ -651,7 +662,7 @@ theorem field_encodable (tn : String) (env : PEnv) (O : Name) (hO : isAbs O = tr
       exact packGuard_isSome _ _ (by simp; omega)
     · cases h
   | salt =>
-    rw [encOne_noncstr _ _ _ _ _ (by intro a b c e; cases e)]
+    rw [encOne_noncstr _ _ _ _ _ (by intro a b c e; cases e) (by intro e; cases e)]
     simp only [parseField] at h
     split at h
     · split at h
@@ -664,47 +675,52 @@ theorem field_encodable (tn : String) (env : PEnv) (O : Name) (hO : isAbs O = tr
         · cases h
     · cases h
   | eui n =>
-    rw [encOne_noncstr _ _ _ _ _ (by intro a b c e; cases e)]
+    rw [encOne_noncstr _ _ _ _ _ (by intro a b c e; cases e) (by intro e; cases e)]
     exact field_encodable_extra tn O i _ t v (by simpa [parseField] using h) hk
   | hex16x4 =>
-    rw [encOne_noncstr _ _ _ _ _ (by intro a b c e; cases e)]
+    rw [encOne_noncstr _ _ _ _ _ (by intro a b c e; cases e) (by intro e; cases e)]
     exact field_encodable_extra tn O i _ t v (by simpa [parseField] using h) hk
   | nsap =>
-    rw [encOne_noncstr _ _ _ _ _ (by intro a b c e; cases e)]
+    rw [encOne_noncstr _ _ _ _ _ (by intro a b c e; cases e) (by intro e; cases e)]
     exact field_encodable_extra tn O i _ t v (by simpa [parseField] using h) hk
   | rdtype =>
-    rw [encOne_noncstr _ _ _ _ _ (by intro a b c e; cases e)]
+    rw [encOne_noncstr _ _ _ _ _ (by intro a b c e; cases e) (by intro e; cases e)]
     exact field_encodable_extra tn O i _ t v (by simpa [parseField] using h) hk
   | algoName =>
-    rw [encOne_noncstr _ _ _ _ _ (by intro a b c e; cases e)]
+    rw [encOne_noncstr _ _ _ _ _ (by intro a b c e; cases e) (by intro e; cases e)]
     exact field_encodable_extra tn O i _ t v (by simpa [parseField] using h) hk
   | scheme =>
-    rw [encOne_noncstr _ _ _ _ _ (by intro a b c e; cases e)]
+    rw [encOne_noncstr _ _ _ _ _ (by intro a b c e; cases e) (by intro e; cases e)]
     exact field_encodable_extra tn O i _ t v (by simpa [parseField] using h) hk
   | ctype =>
-    rw [encOne_noncstr _ _ _ _ _ (by intro a b c e; cases e)]
+    rw [encOne_noncstr _ _ _ _ _ (by intro a b c e; cases e) (by intro e; cases e)]
     exact field_encodable_extra tn O i _ t v (by simpa [parseField] using h) hk
   | keyFlags =>
-    rw [encOne_noncstr _ _ _ _ _ (by intro a b c e; cases e)]
+    rw [encOne_noncstr _ _ _ _ _ (by intro a b c e; cases e) (by intro e; cases e)]
     exact field_encodable_extra tn O i _ t v (by simpa [parseField] using h) hk
   | keyProto =>
-    rw [encOne_noncstr _ _ _ _ _ (by intro a b c e; cases e)]
+    rw [encOne_noncstr _ _ _ _ _ (by intro a b c e; cases e) (by intro e; cases e)]
     exact field_encodable_extra tn O i _ t v (by simpa [parseField] using h) hk
   | sigtime =>
-    rw [encOne_noncstr _ _ _ _ _ (by intro a b c e; cases e)]
+    rw [encOne_noncstr _ _ _ _ _ (by intro a b c e; cases e) (by intro e; cases e)]
     exact field_encodable_extra tn O i _ t v (by simpa [parseField] using h) hk
   | b32hex =>
-    rw [encOne_noncstr _ _ _ _ _ (by intro a b c e; cases e)]
+    rw [encOne_noncstr _ _ _ _ _ (by intro a b c e; cases e) (by intro e; cases e)]
     exact field_encodable_extra tn O i _ t v (by simpa [parseField] using h) hk
   | gpos lim =>
-    rw [encOne_noncstr _ _ _ _ _ (by intro a b c e; cases e)]
+    rw [encOne_noncstr _ _ _ _ _ (by intro a b c e; cases e) (by intro e; cases e)]
     exact field_encodable_extra tn O i _ t v (by simpa [parseField] using h) hk
   | hexOne => cases hk
   | b64One =>
-    rw [encOne_noncstr _ _ _ _ _ (by intro a b c e; cases e)]
-    exact field_encodable_extra tn O i _ t v (by simpa [parseField] using h) hk
+    have h' : parseFieldExtra .b64One t = some v := by simpa [parseField] using h
+    obtain ⟨b, rfl, hl⟩ := b64One_len t v h'
+    unfold encOne
+    simp only
+    split
+    · exact packGuard_isSome _ _ (by simp; omega)
+    · rfl
   | rcode =>
-    rw [encOne_noncstr _ _ _ _ _ (by intro a b c e; cases e)]
+    rw [encOne_noncstr _ _ _ _ _ (by intro a b c e; cases e) (by intro e; cases e)]
     exact field_encodable_extra tn O i _ t v (by simpa [parseField] using h) hk
 
 /-! ### all prefix fields, the tail, the record -/
@@ -793,7 +809,7 @@ theorem map_sb_some {o : Option Bytes} {tail : Option FV} (h : o.map (fun b => s
   | some b => injection h with h; exact ⟨b, h.symm⟩
 
 def WireTail : TK → Bool
-  | .names | .b64Opt => false      -- HIP, TKEY: not claimed (16-bit length fields, see KNOWN_FINDINGS)
+  | .names => false      -- HIP: `encHip`
   | _ => true
 
 theorem trimZeros_length_le (a : Bytes) : (trimZeros a).length ≤ a.length := by
@@ -917,7 +933,16 @@ theorem tail_encodable (env : PEnv) (O : Name) (hO : isAbs O = true) (vals : Lis
   unfold parseTailE at h
   cases tk with
   | names => cases hk
-  | b64Opt => cases hk
+  | b64Opt =>
+    simp only [parseTail] at h
+    split at h
+    · split at h
+      · split at h
+        · cases h
+        · injection h with h; subst h
+          exact packGuard_isSome _ _ (by simp; omega)
+      · cases h
+    · cases h
   | tsigOther =>
     simp only [parseTail] at h
     split at h
@@ -1062,7 +1087,7 @@ def schemaEncodable (tn : String) (sch : Schema) : Bool :=
 
 theorem record_encodable (tn : String) (sch : Schema) (env : PEnv) (O : Name) (hO : isAbs O = true)
     (hs : schemaEncodable tn sch = true) (toks : List Tok) (vals : List FV) (tail : Option FV)
-    (h : parseRec sch env toks = some (vals, tail)) : (encRec tn sch (some O) vals tail).isSome = true := by
+    (h : parseRec sch env toks = some (vals, tail)) : (encRecG tn sch (some O) vals tail).isSome = true := by
   unfold parseRec at h
   simp only [schemaEncodable, Bool.and_eq_true] at hs
   obtain ⟨hf, ht⟩ := hs
@@ -1076,13 +1101,100 @@ theorem record_encodable (tn : String) (sch : Schema) (env : PEnv) (O : Name) (h
       · injection h with h; injection h with h1 h2; subst h1; subst h2
         have e1 := fields_encodable tn env O hO sch.fields 0 toks vals' rest hpf hf
         have e2 := tail_encodable env O hO vals' sch.tail rest tail' hpt ht
-        unfold encRec
+        unfold encRecG
         cases ha : encFields tn (some O) 0 sch.fields vals' with
         | none => simp [ha] at e1
         | some a =>
           cases hb : encTail (some O) sch.tail tail' with
           | none => simp [hb] at e2
           | some b => rfl
+      · cases h
+
+/-! ### HIP (header not in schema order) -/
+
+theorem parseFields_cons_inv (env : PEnv) (k : FK) (ks : List FK) (toks : List Tok) (vals : List FV) (rest : List Tok)
+    (h : parseFields env (k :: ks) toks = some (vals, rest)) :
+    ∃ t ts v vs, toks = t :: ts ∧ parseField env k t = some v ∧ parseFields env ks ts = some (vs, rest) ∧ vals = v :: vs := by
+  cases toks with
+  | nil => simp [parseFields] at h
+  | cons t ts =>
+    simp only [parseFields] at h
+    cases hv : parseField env k t with
+    | none => simp [hv] at h
+    | some v =>
+      cases hr : parseFields env ks ts with
+      | none => simp [hv, hr] at h
+      | some pr =>
+        obtain ⟨vs, rest'⟩ := pr
+        simp only [hv, hr, Option.some.injEq, Prod.mk.injEq] at h
+        obtain ⟨h1, h2⟩ := h
+        subst h1; subst h2
+        exact ⟨t, ts, v, vs, rfl, hv, hr, rfl⟩
+
+theorem encNames_isSome (O : Name) (hO : isAbs O = true) (ns : List Name) : (encNames (some O) ns).isSome = true := by
+  induction ns with
+  | nil => rfl
+  | cons n r ih =>
+    have e1 : (encName (some O) n).isSome = true := by
+      simp only [encName, hO, if_true]
+      split <;> rfl
+    simp only [encNames]
+    cases ha : encName (some O) n with
+    | none => simp [ha] at e1
+    | some a =>
+      cases hb : encNames (some O) r with
+      | none => simp [hb] at ih
+      | some b => rfl
+
+theorem hexOne_len (t : Tok) (v : FV) (h : parseFieldExtra .hexOne t = some v) : ∃ b, v = .b b ∧ b.length ≤ 255 := by
+  simp only [parseFieldExtra] at h
+  split at h
+  · split at h
+    · split at h
+      · cases h
+      · injection h with h; exact ⟨_, h.symm, by omega⟩
+    · cases h
+  · cases h
+
+theorem hip_encodable (sch : Schema) (hs : schemaOf "HIP" = some sch) (env : PEnv) (O : Name) (hO : isAbs O = true)
+    (toks : List Tok) (vals : List FV) (tail : Option FV) (h : parseRec sch env toks = some (vals, tail)) :
+    (encHip (some O) vals tail).isSome = true := by
+  simp only [schemaOf, Option.some.injEq] at hs
+  subst hs
+  unfold parseRec at h
+  simp only at h
+  split at h
+  · cases h
+  · rename_i vals' rest hpf
+    split at h
+    · cases h
+    · rename_i tail' hpt
+      split at h
+      · injection h with h; injection h with h1 h2; subst h1; subst h2
+        obtain ⟨t1, ts1, v1, vs1, rfl, p1, q1, rfl⟩ := parseFields_cons_inv _ _ _ _ _ _ hpf
+        obtain ⟨t2, ts2, v2, vs2, rfl, p2, q2, rfl⟩ := parseFields_cons_inv _ _ _ _ _ _ q1
+        obtain ⟨t3, ts3, v3, vs3, rfl, p3, q3, rfl⟩ := parseFields_cons_inv _ _ _ _ _ _ q2
+        simp only [parseFields, Option.some.injEq, Prod.mk.injEq] at q3
+        obtain ⟨rfl, rfl⟩ := q3
+        simp only [u8, parseField] at p1
+        obtain ⟨alg, ha, rfl⟩ := map_n_some p1
+        have hal := asUint_le _ _ _ _ ha
+        obtain ⟨hit, rfl, hhl⟩ := hexOne_len t2 v2 (by simpa [parseField] using p2)
+        obtain ⟨key, rfl, hkl⟩ := b64One_len t3 v3 (by simpa [parseField] using p3)
+        simp only [parseTailE] at hpt
+        cases hn : parseNames env ts3 with
+        | none => simp [hn] at hpt
+        | some ns =>
+          simp only [hn, Option.map_some, Option.some.injEq] at hpt
+          subst hpt
+          have e2 := encNames_isSome O hO ns
+          have e1 : (packGuard (decide (hit.length < 256) && decide (alg < 256) && decide (key.length < 65536))
+              ([hit.length, alg] ++ beBytes 2 key.length ++ hit ++ key)).isSome = true :=
+            packGuard_isSome _ _ (by simp; omega)
+          obtain ⟨a, hpa⟩ := Option.isSome_iff_exists.mp e1
+          obtain ⟨b, hpb⟩ := Option.isSome_iff_exists.mp e2
+          simp only [encHip, hpa, hpb]
+          rfl
       · cases h
 
 end Model
